@@ -38,11 +38,18 @@ type LookupGen struct {
 	// small palette so that different lookups share a flag word while
 	// naming different sets.
 	MarkMode bool
+	// Hot, if set, lists glyphs that are used more often than others.
+	Hot []glyph.ID
+	// CtxFormat forces the format (1..3) of contextual subtables; 0 = tape.
+	CtxFormat int
 }
 
 func (g *LookupGen) gid() glyph.ID {
 	if g.N <= 1 {
 		return 0
+	}
+	if len(g.Hot) > 0 && g.T.Chance(1, 3) {
+		return g.Hot[g.T.Draw(len(g.Hot))]
 	}
 	if g.T.Chance(1, 2) && g.N > 12 {
 		return glyph.ID(1 + g.T.Draw(11)) // small hot set so that rules interact
@@ -241,9 +248,17 @@ func (g *LookupGen) GsubSubtable(tp uint16) gtab.Subtable {
 	panic("simgen: unsupported GSUB type")
 }
 
+func (g *LookupGen) ctxFormat() int {
+	f := g.T.Draw(3)
+	if g.CtxFormat > 0 {
+		return g.CtxFormat - 1
+	}
+	return f
+}
+
 func (g *LookupGen) seqContext() gtab.Subtable {
 	t := g.T
-	switch t.Draw(3) {
+	switch g.ctxFormat() {
 	case 0:
 		gg := g.glyphSet(5)
 		s := &gtab.SeqContext1{Cov: covTable(gg)}
@@ -289,7 +304,7 @@ func (g *LookupGen) seqContext() gtab.Subtable {
 
 func (g *LookupGen) chainedContext() gtab.Subtable {
 	t := g.T
-	switch t.Draw(3) {
+	switch g.ctxFormat() {
 	case 0:
 		gg := g.glyphSet(5)
 		s := &gtab.ChainedSeqContext1{Cov: covTable(gg)}
